@@ -408,3 +408,4 @@ def _c12_yf_comp(v):
     # ... and a yield there does not make the enclosing async function a generator
     return msg == "'return' with value in async generator" and mech.get('scope_yields', 0) > 0 \
         and mech.get('scope_yields') == mech.get('scope_yields_in_comprehensions')
+
